@@ -316,6 +316,47 @@ func c14units(tier string) []mc.Unit {
 		r.AddNontrivial(cnt)
 		r.Bound("regions-and-shared-ids", "6 sequence lengths x 3 region starts x 7 region ends (multiples of the line width, shorter and longer than the sequence) x 3 ID-sharing modes x 2 writers")
 	}})
+	// every feature count 0..70 and counts around 100, 128, 256, 1000, under several GOMAXPROCS settings
+	us = append(us, mc.Unit{Name: "feature-counts", Weight: 40, Run: func(r *mc.Recorder) {
+		var cnt int64
+		counts := []int{99, 100, 101, 127, 128, 129, 255, 256, 257, 1000}
+		for n := 0; n <= 70; n++ {
+			counts = append(counts, n)
+		}
+		withProcs([]int{1, 4, 7}, func(procs int) {
+			for _, nf := range counts {
+				rec := c14rec{name: "chr1", rstart: 1, rend: 300, seq: c14seq(300)}
+				for i := 0; i < nf; i++ {
+					a := 1 + (i*7)%250
+					rec.feats = append(rec.feats, c14feat{seqid: "chr1", source: "src", typ: []string{"gene", "CDS", "exon"}[i%3], start: a, end: a + i%40, score: ".", strand: []string{"+", "-", "."}[i%3], phase: []string{".", "0", "1", "2"}[i%4], attrs: map[string]string{"ID": fmt.Sprintf("f%d", i)}})
+				}
+				for w := 0; w < 2; w++ {
+					var text []byte
+					cas := fmt.Sprintf("%d features, GOMAXPROCS=%d, writer %s", nf, procs, []string{"Build", "independent"}[w])
+					if w == 0 {
+						if p := catch(func() { text = gff.Build(c14poly(rec)) }); p != "" {
+							r.Failf("no-panic", cas, []string{"feature-count"}, "text", "panic: "+p)
+							continue
+						}
+					} else {
+						text = c14write(rec, 70, true, false)
+					}
+					var got poly.Sequence
+					cnt++
+					if p := catch(func() { got = gff.Parse(text) }); p != "" {
+						r.Failf(map[int]string{0: "write-read-no-panic", 1: "parse-no-panic"}[w], cas, []string{"feature-count"}, "a record", "panic: "+p)
+						continue
+					}
+					c14check(r, cas, []string{"feature-count"}, rec, got)
+				}
+			}
+		})
+		r.Eval(cnt)
+		r.AddStates(cnt)
+		r.AddTransitions(cnt)
+		r.AddNontrivial(cnt)
+		r.Bound("feature-counts", "every feature count 0..70 and 99..101, 127..129, 255..257, 1000, GOMAXPROCS 1, 4, 7, both writers")
+	}})
 	// file wrappers in every scratch directory (distinct file systems)
 	us = append(us, mc.Unit{Name: "files/everywhere", Weight: 10, Run: func(r *mc.Recorder) {
 		var cnt int64
